@@ -59,13 +59,14 @@ def build_lib(variant="default", cc="gcc", extra_flags=(), tag=None):
     Returns the directory (use as PYTHONPATH). Raises RuntimeError if the tree does not compile."""
     flags = CFLAGS + VARIANTS[variant] + list(extra_flags)
     hsh = tree_hash(variant + cc + " ".join(flags) + REPO)
-    d = os.path.join(BUILD, "lib-%s-%s" % (tag or variant, hsh))
+    rh = hashlib.sha256(REPO.encode()).hexdigest()[:6]     # builds of different trees (VERIF_REPO) never purge each other
+    d = os.path.join(BUILD, "lib-%s-%s-%s" % (tag or variant, rh, hsh))
     so = os.path.join(d, "librebound" + SUFFIX)
-    with Lock("lib-" + (tag or variant)):
+    with Lock("lib-%s-%s" % (tag or variant, rh)):
         if os.path.exists(so):
             return d
-        # remove stale builds of this variant (disk)
-        for old in glob.glob(os.path.join(BUILD, "lib-%s-*" % (tag or variant))):
+        # remove stale builds of this variant of this tree (disk)
+        for old in glob.glob(os.path.join(BUILD, "lib-%s-%s-*" % (tag or variant, rh))):
             shutil.rmtree(old, ignore_errors=True)
         os.makedirs(os.path.join(d, "obj"), exist_ok=True)
         procs = []
